@@ -103,7 +103,7 @@ func (t C9TV) MarshalText() ([]byte, error) {
 }
 
 func (t *C9TV) UnmarshalText(b []byte) error {
-	if strings.Contains(string(b), "ERR") {
+	if t == nil || strings.Contains(string(b), "ERR") { // nil: promoted through a nil embedded pointer (C9EmbTVPtr)
 		return errC9
 	}
 	t.S = "text:" + string(b)
